@@ -5,6 +5,9 @@
 //
 // usage: drv_civil <out-prefix> <shards> <seed> <quick|thorough> [families: ctor,arith,wday]
 #include <cinttypes>
+#include <iomanip>
+#include <locale>
+#include <sstream>
 #include <limits>
 
 #include "trace.h"
@@ -80,6 +83,43 @@ template <> struct Tag<civil_year> { enum { v = 5 }; };
 
 static const char* kDummy = "[[1],1,1,0,0,0]";
 
+// operator<< (the observation point the accessors share): the text of the value under a rotating state of the
+// destination stream - number base, showpos / showbase / uppercase, a grouping numpunct imbued on the stream,
+// width + fill + adjustment.  Only width, fill and adjustment may show in the output.
+struct Grouping : std::numpunct<char> {
+  char do_thousands_sep() const override { return ','; }
+  std::string do_grouping() const override { return "\3"; }
+};
+static unsigned g_sv = 0;
+template <typename CT>
+static std::string stream_fields(const CT& c) {
+  unsigned v = g_sv++;
+  std::ostringstream os;
+  switch (v % 8) {
+    case 1: os << std::hex; break;
+    case 2: os << std::showpos; break;
+    case 3: os << std::oct << std::showbase; break;
+    case 4: os << std::hex << std::uppercase << std::showbase; break;
+    case 5: os.imbue(std::locale(std::locale::classic(), new Grouping)); break;
+    case 6: os << std::showpos << std::hex; os.imbue(std::locale(std::locale::classic(), new Grouping)); break;
+    default: break;
+  }
+  static const int widths[] = {0, 0, 0, 1, 5, 21, 30, 0, 12};
+  int w = widths[(v / 8) % 9];
+  int adj = (int)((v / 72) % 3);   // 0 right (default), 1 left, 2 internal
+  char fill = "  .0*"[(v / 216) % 5];
+  if (w) os << std::setw(w);
+  os << std::setfill(fill);
+  if (adj == 1) os << std::left; else if (adj == 2) os << std::internal;
+  os << c;
+  long after = (long)os.width();
+  char buf[96];
+  snprintf(buf, sizeof buf, ",\"sv\":%u,\"sw\":%d,\"sl\":%d,\"sf\":%d,\"swa\":%ld,\"s\":", v % 8, w, adj == 1 ? 1 : 0, (int)fill, after);
+  std::string text = os.str(), b = "[";
+  for (size_t i = 0; i < text.size(); ++i) { if (i) b += ","; b += std::to_string((int)(unsigned char)text[i]); }
+  return std::string(buf) + b + "]";
+}
+
 template <typename CT>
 static void ev_ctor(const int64_t a[6]) {
   int ub;
@@ -87,8 +127,9 @@ static void ev_ctor(const int64_t a[6]) {
   VT_GUARD(ub, c = CT(a[0], a[1], a[2], a[3], a[4], a[5]));
   std::string s = "{\"e\":\"Ctor\",\"tag\":" + std::to_string((int)Tag<CT>::v) + ",\"a\":[";
   for (int i = 0; i < 6; ++i) { if (i) s += ","; s += W(a[i]); }
-  s += "],\"r\":" + (ub ? std::string(kDummy) : F(c)) + ",\"ub\":" + std::to_string(ub) + "}";
-  out->emit(s);
+  s += "],\"r\":" + (ub ? std::string(kDummy) : F(c)) + ",\"ub\":" + std::to_string(ub);
+  s += ub ? std::string(",\"sv\":0,\"sw\":0,\"sl\":0,\"sf\":32,\"swa\":0,\"s\":[]") : stream_fields(c);
+  out->emit(s + "}");
 }
 
 template <typename CT>
